@@ -1,4 +1,5 @@
 """C14 — bytecode operands are encoded losslessly or the program is rejected."""
+import vlib
 from vlib import Case
 
 RULE = ("op `enc <byte> <operands>`: definitions::make, lookup and read_operands on the real code vs the Lean model; "
@@ -13,7 +14,7 @@ HARNESS_TIMEOUT = 900
 
 
 def nontrivial(c):
-    return " dec=[" in c.impl or (c.line.startswith("eval ") and c.impl.startswith(("ok", "cerr")))
+    return " dec=[" in c.impl or (c.line.startswith(("eval ", "core ")) and c.impl.startswith(("ok", "cerr", "code=")))
 
 
 def spec_override(c):
@@ -22,7 +23,15 @@ def spec_override(c):
 
 
 def model_skip(c):
+    if c.line.startswith("core "):
+        a = [x for x in c.impl.split(" ") if not x.startswith("last=")]
+        b = [x for x in c.model.split(" ") if not x.startswith("last=")]
+        return a == b
     return c.line.startswith("eval ")
+
+
+def canon(s):
+    return "cerr" if s.startswith("cerr") else s
 
 
 def classify(c):
@@ -121,4 +130,15 @@ def cases(ctx):
             out.append(Case(f"enc 34 {v} {w}", ("closure",)))
     for name, src, verdict in limit_programs(ctx.thorough()):
         out.append(Case("eval " + hx(src), ("limit-program",), extra={"expect": verdict, "name": "limit " + name}))
+    # whole programs of the core fragment around the 16-bit jump boundary: the functional compiler with its overflow
+    # check (Core.compileChecked, theorem compile_lossless_or_rejected) must be byte-exact with the real compiler where
+    # it accepts, and reject exactly where the real compiler rejects
+    pad = lambda n: "acc = acc + 1;\n" * n
+    csrcs = []
+    for n in (10, 2900, 3100, 5900, 5950, 5955, 5960, 6100):
+        csrcs.append(("while-body-%d" % n, "let acc = 0;\nlet k = 0;\nwhile k < 2 {\nk = k + 1;\n" + pad(n) + "}\nacc\n"))
+        csrcs.append(("block-then-loop-%d" % n, "let acc = 0;\n{\n" + pad(n) + "}\nlet k = 0;\nwhile k < 3 { k = k + 1; acc = acc + k; }\nacc\n"))
+    lines = vlib.lang_lines(ctx, [s2 for _, s2 in csrcs], op="core")
+    for (name, s2), l in zip(csrcs, lines):
+        out.append(Case(l, ("core-limit",), extra={"name": "core " + name}))
     return out
